@@ -30,6 +30,9 @@ def source_digest(fn):
     return hashlib.sha256(ast.dump(fn).encode()).hexdigest()[:16]
 
 
+CROSSCHECK = bool(os.environ.get('PYVC_CROSSCHECK'))
+
+
 def describe_assumptions(contract):
     """what the verdicts of this contract rest on besides the code: its preconditions (facts about callers / type
     invariants) and the callees seen through a contract or an assumed model instead of their bodies"""
@@ -138,6 +141,9 @@ def verify_contract(contract, X, canary=True):
         verdict, dt, model, backend = discharge(vc)
         o = obs.setdefault(vc.oid, {'verdict': 'proved', 'instances': 0, 'time_s': 0.0, 'backends': [],
                                     'kind': vc.kind, 'note': vc.note})
+        if CROSSCHECK and verdict == 'proved' and backend.startswith('z3') and o['instances'] < 2:
+            # thorough tier: the first instances of every obligation are put to cvc5 as well
+            o.setdefault('cvc5', {'agree': 0, 'disagree': 0, 'open': 0})[core.cross_check(vc)] += 1
         o['instances'] += 1
         o['time_s'] += dt
         if backend not in o['backends']:
